@@ -122,6 +122,38 @@ func (c *c06Case) Run(ctx *core.Ctx) {
 	trig := ""
 	withComponents := false
 	switch c.Part {
+	case "wide":
+		// a component with many named slots: the includer fills those the pattern selects
+		var n int
+		fmt.Sscanf(c.Var, "%d", &n)
+		var slots, supplied, want []string
+		for i := 0; i < n; i++ {
+			name := fmt.Sprintf("s%c", 'a'+i)
+			slots = append(slots, fmt.Sprintf(`<u><slot name="%s">FB%d</slot></u>`, name, i))
+			fill := i%2 == 0
+			if c.Form == "odd" {
+				fill = i%2 == 1
+			}
+			if c.Form == "all" {
+				fill = true
+			}
+			if fill {
+				form := `#` + name
+				if i%3 == 1 {
+					form = `v-slot:` + name
+				}
+				supplied = append(supplied, fmt.Sprintf(`<template %s><b>{{ v }}%d</b></template>`, form, i))
+				want = append(want, fmt.Sprintf("IV%d", i))
+			} else {
+				want = append(want, fmt.Sprintf("FB%d", i))
+			}
+		}
+		files = Files{
+			"page.vuego": `<section><template include="c.vuego">` + strings.Join(supplied, "\n") + `</template></section>`,
+			"c.vuego":    `<div class="c">` + strings.Join(slots, "") + `</div>`,
+		}
+		expectText("u", want, "wide")
+		trig = c.Form
 	case "ws":
 		// whitespace inside supplied content is content (it separates inline elements, and <pre>
 		// shows it); a non-breaking space is content, not "nothing supplied"
@@ -483,7 +515,7 @@ func init() {
 		CPUBudget: 10,
 		Rule: "component with header/default/footer slots (fallback on two of them) used by includers supplying every subset in every form (v-slot:, #, plain children, v-slot, v-slot:default) x 4 content kinds (static, {{ }} of an includer variable, :attr, text) x 6 instance arrangements (incl. an include tag carrying v-if / v-else); scoped slots (4 components incl. slot in v-for) x {named var, destructured, fallback, plain}; same slot used twice; nested components (5 arrangements); layout-inherited slots (also with props the layout's slot binds, declared by name or destructured, and never rendered a second time in the page content); slot names written with capital letters; components whose prop / front-matter key / loop variable / template variable has the name of the includer's variable that the content reads; " +
 			"every case also right after a render (on another engine) that passes content for all those slot names to a component and through a layout to the components the layout includes; " +
-			"whitespace part: content whose parts are separated by a space, a newline or a non-breaking space, content that is a non-breaking space only, padded and blank content, supplied plain / in a v-slot template / for a named slot to a slot inside <pre>, with exact text; " +
+			"wide part: components with 1..13 named slots of which the includer fills the even / odd / all ones; whitespace part: content whose parts are separated by a space, a newline or a non-breaking space, content that is a non-breaking space only, padded and blank content, supplied plain / in a v-slot template / for a named slot to a slot inside <pre>, with exact text; " +
 			"oracle: expected normalised text (and bound attributes) at every slot position. non-trivial = all",
 		Bounds:      map[string]string{"quick": "full catalogue product, nesting depth 2, <=2 instances", "thorough": "same"},
 		Assumptions: []string{"whitespace around spliced nodes is insignificant"},
@@ -507,6 +539,11 @@ func init() {
 							}
 						}
 					}
+				}
+			}
+			for n := 1; n <= 13; n++ {
+				for _, form := range []string{"even", "odd", "all"} {
+					emit(&c06Case{Part: "wide", Var: fmt.Sprint(n), Form: form})
 				}
 			}
 			for _, k := range []string{"inline-space", "inline-newline", "text-space", "nbsp", "nbsp-between", "padded", "blank"} {
